@@ -483,24 +483,26 @@ def decItems (R : DecHook) (env : Env) (cfg : Cfg) (ver : Nat) : Items → Bytes
 /-- erase the gated-out attributes of one class; returns (visible attributes of this class, the rest) -/
 def visItems (R : VisHook) (cfg : Cfg) (ver : Nat) : Items → List Val → List Val × List Val
   | .nil, vs => ([], vs)
-  | .field _ ty _ r, v :: vs => let (a, rest) := visItems R cfg ver r vs; (visTy R ty v :: a, rest)
+  | .field _ ty _ r, v :: vs =>
+    let p := visItems R cfg ver r vs
+    (visTy R ty v :: p.1, p.2)
   | .field _ _ _ _, [] => ([], [])
   | .nex g body r, vs =>
     if cfg.nexVersion ≥ g then
-      let (a1, vs1) := visItems R cfg ver body vs
-      let (a2, vs2) := visItems R cfg ver r vs1
-      (a1 ++ a2, vs2)
+      let p1 := visItems R cfg ver body vs
+      let p2 := visItems R cfg ver r p1.2
+      (p1.1 ++ p2.1, p2.2)
     else
-      let (a2, vs2) := visItems R cfg ver r (vs.drop body.fieldCount)
-      (List.replicate body.fieldCount .absent ++ a2, vs2)
+      let p2 := visItems R cfg ver r (vs.drop body.fieldCount)
+      (List.replicate body.fieldCount .absent ++ p2.1, p2.2)
   | .rev g body r, vs =>
     if ver ≥ g then
-      let (a1, vs1) := visItems R cfg ver body vs
-      let (a2, vs2) := visItems R cfg ver r vs1
-      (a1 ++ a2, vs2)
+      let p1 := visItems R cfg ver body vs
+      let p2 := visItems R cfg ver r p1.2
+      (p1.1 ++ p2.1, p2.2)
     else
-      let (a2, vs2) := visItems R cfg ver r (vs.drop body.fieldCount)
-      (List.replicate body.fieldCount .absent ++ a2, vs2)
+      let p2 := visItems R cfg ver r (vs.drop body.fieldCount)
+      (List.replicate body.fieldCount .absent ++ p2.1, p2.2)
 
 /-- one iteration of the hierarchy loop of `Structure.encode` for class `d`, `ver = cls.max_version(...)`.
     The generated `save` starts with `self.check_required(...)`, which Python dispatches on the *instance*:
@@ -685,6 +687,10 @@ def clientResponse (env : Env) (cfg : Cfg) (fuel : Nat) (m : MethodDef) (body : 
   | .error e => .error e
   | .ok (vs, r) => if r.isEmpty then .ok vs else .error .value
 
+/-- `RMCClient.__init__`: `if self.client.minor_version() >= 3: self.settings["nex.struct_header"] = True` -/
+def rmcClientCfg (cfg : Cfg) (minor : Nat) : Cfg :=
+  if minor ≥ 3 then { cfg with structHeader := true } else cfg
+
 /-! ## well-formedness checkers (Bool, linear; lifted to `Prop` in `NxProofs/Schema`) -/
 
 def tyRefs : Ty → List Name
@@ -699,23 +705,24 @@ def Items.refs : Items → List Name
   | .nex _ b r => b.refs ++ r.refs
   | .rev _ b r => b.refs ++ r.refs
 
-/-- revision numbers in document order; `none` if a `revision` block contains another one
-    (the generated `max_version` would not see it) -/
-def Items.revs : Items → Option (List Nat)
-  | .nil => some []
-  | .field _ _ _ r => r.revs
-  | .nex _ b r => (match b.revs, r.revs with | some x, some y => some (x ++ y) | _, _ => none)
-  | .rev g b r => if b.hasRev then none else (match r.revs with | some y => some (g :: y) | none => none)
+def Items.nexGates : Items → List Nat
+  | .nil => []
+  | .field _ _ _ r => r.nexGates
+  | .nex g b r => g :: (b.nexGates ++ r.nexGates)
+  | .rev _ b r => b.nexGates ++ r.nexGates
 
-def ascending : List Nat → Bool
-  | a :: b :: r => a ≤ b && ascending (b :: r)
-  | _ => true
+/-- every `revision` block that `load`/`save` can reach under `nex.version = nex` has a number ≤ `m` -/
+def revsBelow (m nex : Nat) : Items → Bool
+  | .nil => true
+  | .field _ _ _ r => revsBelow m nex r
+  | .nex g b r => (if nex ≥ g then revsBelow m nex b else true) && revsBelow m nex r
+  | .rev g b r => decide (g ≤ m) && revsBelow m nex b && revsBelow m nex r
 
-/-- "revisions ascending": the last `version = r` executed is the largest one, whatever `nex.version` is -/
+/-- "revisions ascending": at every gate threshold (hence, by `revAscending_sound`, for every `nex.version`)
+    the number the generated `max_version` returns — the *last* `version = r` executed — bounds every
+    revision block that is reachable, and fits the `u8` of the header -/
 def Items.revAscending (it : Items) : Bool :=
-  match it.revs with
-  | some l => ascending l && l.all (· < 256)
-  | none => false
+  (0 :: it.nexGates).all (fun n => revsBelow (maxVersion n it) n it && decide (maxVersion n it < 256))
 
 def nodupNat : List Nat → Bool
   | [] => true
